@@ -33,12 +33,51 @@ Record config := {
   cf_par_enforced : bool
 }.
 
+(* client_with_custom_token_lifespans.go: per-client overrides of the server's lifetimes, one per
+   (grant, token type) pair; None = not set. Only the pairs of flows that exist in this model. *)
+Record lifespans := {
+  lf_ac_at : option Z; lf_ac_rt : option Z;      (* authorization_code grant: access / refresh token *)
+  lf_cc_at : option Z;                            (* client_credentials grant *)
+  lf_im_at : option Z;                            (* implicit grant (the hybrid flow inherits it) *)
+  lf_pw_at : option Z; lf_pw_rt : option Z;      (* password grant *)
+  lf_rt_at : option Z; lf_rt_rt : option Z       (* refresh_token grant *)
+}.
+Inductive lgrant := LAuthCode | LClientCreds | LImplicit | LPassword | LRefresh | LDevice.
+
 Record client := {
   cl_public : bool;
   cl_grants : list string;
   cl_scopes : list string;
-  cl_aud : list aurl
+  cl_aud : list aurl;
+  cl_life : option lifespans          (* TokenLifespans; None = nil *)
 }.
+
+(* DefaultClientWithCustomTokenLifespans.GetEffectiveLifespan: the override of exactly this pair, else the fallback.
+   The device grant has no entry in the table. *)
+Definition override (cl : client) (g : lgrant) (refresh : bool) : option Z :=
+  match cl_life cl with
+  | None => None
+  | Some l =>
+      match g, refresh with
+      | LAuthCode, false => lf_ac_at l | LAuthCode, true => lf_ac_rt l
+      | LClientCreds, false => lf_cc_at l
+      | LImplicit, false => lf_im_at l
+      | LPassword, false => lf_pw_at l | LPassword, true => lf_pw_rt l
+      | LRefresh, false => lf_rt_at l | LRefresh, true => lf_rt_rt l
+      | _, _ => None
+      end
+  end.
+Definition eff (o : option Z) (fallback : Z) : Z := match o with Some v => v | None => fallback end.
+
+(* the configuration a grant of kind [g] to client [cl] mints with: only the two token lifetimes can differ *)
+Definition eff_cfg (cfg : config) (cl : client) (g : lgrant) : config :=
+  {| cf_scope := cf_scope cfg; cf_aud_exact := cf_aud_exact cfg; cf_refresh_scopes := cf_refresh_scopes cfg;
+     cf_life_code := cf_life_code cfg;
+     cf_life_at := eff (override cl g false) (cf_life_at cfg);
+     cf_life_rt := eff (override cl g true) (cf_life_rt cfg);
+     cf_pkce_enforce := cf_pkce_enforce cfg; cf_pkce_enforce_public := cf_pkce_enforce_public cfg; cf_pkce_plain := cf_pkce_plain cfg;
+     cf_introspect_rt := cf_introspect_rt cfg; cf_life_dev := cf_life_dev cfg; cf_par_life := cf_par_life cfg;
+     cf_par_enforced := cf_par_enforced cfg |}.
 
 Definition aud_ok (cfg : config) (hs ns : list aurl) : bool :=
   if cf_aud_exact cfg then exact_audience (map a_raw hs) (map a_raw ns) else default_audience hs ns.
